@@ -6,7 +6,7 @@ use std::sync::Mutex;
 use emit::span::{SpanCtxt, SpanId, TraceId};
 use emit::Frame;
 
-use crate::exec::{block_on, join, yield_now, BoxFut};
+use crate::exec::{alternating, block_on, join, yield_now, BoxFut};
 use crate::rt::Rt;
 use crate::tree::{Form, IdForm, Incoming, PItem, PNode};
 
@@ -133,6 +133,87 @@ async fn span_result_async(env: &Env<'_>, node: &PNode) -> Result<(), std::io::E
 }
 
 // ---------------------------------------------------------------------------------------------
+// span call sites where the span's OWN frame (the one `new_span!` returns) travels to another thread
+
+fn park(env: &Env, r: std::thread::Result<Result<(), vcore::Fail>>) {
+    let fail = match r {
+        Ok(Ok(())) => return,
+        Ok(Err(f)) => f,
+        Err(_) => vcore::Fail::new("panic@handoff-thread", "hand-off thread died outside the guarded body"),
+    };
+    env.fail.lock().unwrap().get_or_insert(fail);
+}
+
+fn span_handoff_call(env: &Env, node: &PNode) {
+    let (mut guard, frame) = emit::new_span!(rt: env.rt, mdl: emit::Path::new_raw(node.mdl), "handoff_call");
+    let r = std::thread::scope(|s| {
+        s.spawn(move || {
+            vcore::catch(move || {
+                frame.call(move || {
+                    guard.start();
+                    check(env, node.pre);
+                    run_sync(env, &node.items);
+                    guard.complete();
+                })
+            })
+        })
+        .join()
+    });
+    park(env, r);
+}
+
+fn span_handoff_in_fn(env: &Env, node: &PNode) {
+    let (mut guard, frame) = emit::new_span!(rt: env.rt, mdl: emit::Path::new_raw(node.mdl), "handoff_in_fn");
+    let on_thread = frame.in_fn(move || {
+        guard.start();
+        check(env, node.pre);
+        run_sync(env, &node.items);
+        drop(guard);
+    });
+    let r = std::thread::scope(|s| s.spawn(move || vcore::catch(on_thread)).join());
+    park(env, r);
+}
+
+fn span_handoff_enter_back(env: &Env, node: &PNode) {
+    let (mut guard, mut frame) = emit::new_span!(rt: env.rt, mdl: emit::Path::new_raw(node.mdl), "handoff_enter_back");
+    let r = std::thread::scope(|s| {
+        s.spawn(move || {
+            let r = vcore::catch(|| {
+                let _entered = frame.enter();
+                guard.start();
+                check(env, node.pre);
+                run_sync(env, &node.items);
+            });
+            (r, guard, frame)
+        })
+        .join()
+    });
+    match r {
+        Ok((r, guard, mut frame)) => {
+            park(env, Ok(r));
+            // back on the parent thread: complete inside the span's frame, as the docs demand
+            let _entered = frame.enter();
+            guard.complete();
+        }
+        Err(e) => park(env, Err(e)),
+    }
+}
+
+async fn span_handoff_future(env: &Env<'_>, node: &PNode) {
+    let (mut guard, frame) = emit::new_span!(rt: env.rt, mdl: emit::Path::new_raw(node.mdl), "handoff_future");
+    alternating(
+        frame.in_future(async move {
+            guard.start();
+            check(env, node.pre);
+            run_async(env, &node.items).await;
+            guard.complete();
+        }),
+        env.fail,
+    )
+    .await
+}
+
+// ---------------------------------------------------------------------------------------------
 // dispatch
 
 fn span_sync(env: &Env, node: &PNode) {
@@ -146,7 +227,10 @@ fn span_sync(env: &Env, node: &PNode) {
             let _ = span_result_sync(env, node);
         }
         // an async span started from synchronous code: driven to completion right here
-        Form::AsyncFn | Form::ManualFuture | Form::GuardAsync | Form::ResultAsync => block_on(span_async(env, node)),
+        Form::HandoffCall => span_handoff_call(env, node),
+        Form::HandoffInFn => span_handoff_in_fn(env, node),
+        Form::HandoffEnterBack => span_handoff_enter_back(env, node),
+        Form::AsyncFn | Form::ManualFuture | Form::GuardAsync | Form::ResultAsync | Form::HandoffFuture => block_on(span_async(env, node)),
     }
 }
 
@@ -155,6 +239,7 @@ fn span_async<'a>(env: &'a Env<'a>, node: &'a PNode) -> BoxFut<'a> {
         Form::AsyncFn => Box::pin(span_async_fn(env, node)),
         Form::ManualFuture => Box::pin(span_manual_future(env, node)),
         Form::GuardAsync => Box::pin(span_guard_async(env, node)),
+        Form::HandoffFuture => Box::pin(span_handoff_future(env, node)),
         Form::ResultAsync => Box::pin(async move {
             let _ = span_result_async(env, node).await;
         }),
